@@ -154,7 +154,9 @@ def build2(m):
                    requires=['forall(lambda i: tokens[i].end <= tokens[i + 1].start, 0, len(tokens) - 1)',
                              'forall(lambda i: start <= tokens[i].start and tokens[i].end <= end, 0, len(tokens))'],
                    note='trusted at this call site; its own body is verified separately (make_tokens#tiling)'))
-    STATE_POST = [('html._charref == 0', 'C11'), ('len(core_tokens._code_matches) == 0', 'C11')]
+    # the code-span hand-over list is empty again on every exit: a match left behind would be spliced into the
+    # NEXT string that is tokenized (C11), which then is no longer tiled by its own tokens (C16, C14)
+    STATE_POST = [('html._charref == 0', 'C11'), ('len(core_tokens._code_matches) == 0', ['C11', 'C16', 'C14'])]
     m.add(Contract(MOD + ':tokenize#state', [('string', STR), ('token_types', TList(SPANCLS))], returns=TList(SPT),
                    requires=['len(token_types) >= 1'], assume_callee_pre=True,
                    ensures=list(STATE_POST), ensures_exc=list(STATE_POST),
@@ -272,7 +274,11 @@ def build5(m):
                     ('fallback_token', SPANCLS)],
                    requires=['start == m_start(match, 0)', 'end == m_end(match, 0)', 'MATCH_OK(match, cls.parse_group, string)'],
                    ensures=['PT_OK(self)', 'self.end <= len(string)', 'len(self.children) == 0', 'self.string == string',
-                            'self.cls == cls', 'self.start == start', 'self.end == end'],
+                            'self.cls == cls', 'self.start == start', 'self.end == end',
+                            # C16: the span in which other candidates nest is the class's parse group of THIS match -
+                            # for every token class, whether or not its contents are parsed (the conflict rules of
+                            # `relation` compare against it)
+                            ('self.parse_start == m_start(match, cls.parse_group) and self.parse_end == m_end(match, cls.parse_group)', 'C16')],
                    modifies=['self.start', 'self.end', 'self.parse_start', 'self.parse_end', 'self.match', 'self.string',
                              'self.cls', 'self.fallback_token', 'self.children'],
                    prop=P))
